@@ -462,6 +462,65 @@ func init() {
 		return true
 	})
 
+	// strings.Builder: the same rope model (its copy check and unsafe string conversion are not executed)
+	for _, m := range []string{"WriteString", "WriteByte", "Write", "Reset", "String", "Len"} {
+		intrinsics["(*strings.Builder)."+m] = intrinsics["(*bytes.Buffer)."+m]
+	}
+	reg("(*strings.Builder).Grow", func(ex *Exec, st *State, fv FuncV, args []Value, res ssa.Value, at ssa.Instruction) bool {
+		setRes(st, res, TupleV{})
+		return true
+	})
+	reg("(*bytes.Buffer).Grow", func(ex *Exec, st *State, fv FuncV, args []Value, res ssa.Value, at ssa.Instruction) bool {
+		setRes(st, res, TupleV{})
+		return true
+	})
+	reg("internal/abi.NoEscape", func(ex *Exec, st *State, fv FuncV, args []Value, res ssa.Value, at ssa.Instruction) bool {
+		setRes(st, res, args[0])
+		return true
+	})
+	// strconv.Append*(dst, v, ...): dst's content followed by the rendering, as a rope-backed
+	// byte slice (like the result of Buffer.Bytes on a private buffer)
+	appendTo := func(ex *Exec, st *State, dst Value, tail StrV, res ssa.Value) {
+		var head StrV
+		switch x := dst.(type) {
+		case SliceV:
+			if !(x.len.isConst && x.len.v == 0) {
+				head = ex.bytesToString(st, x)
+			}
+		case RopeRef:
+			head = ex.ropeOf(st, x)
+		default:
+			fail("strconv.Append* onto %T", dst)
+		}
+		rope := head.concat(tail)
+		id := st.alloc(nil, StructV{f: []Value{rope}})
+		setRes(st, res, RopeRef{buf: PtrV{obj: id}, n: -1, snap: rope})
+	}
+	reg("strconv.AppendUint", func(ex *Exec, st *State, fv FuncV, args []Value, res ssa.Value, at ssa.Instruction) bool {
+		appendTo(ex, st, args[0], decSeg(args[1].(*Term), false, args[2].(*Term)), res)
+		return true
+	})
+	reg("strconv.AppendInt", func(ex *Exec, st *State, fv FuncV, args []Value, res ssa.Value, at ssa.Instruction) bool {
+		appendTo(ex, st, args[0], decSeg(args[1].(*Term), true, args[2].(*Term)), res)
+		return true
+	})
+	reg("strconv.AppendBool", func(ex *Exec, st *State, fv FuncV, args []Value, res ssa.Value, at ssa.Instruction) bool {
+		b := args[1].(*Term)
+		var tail StrV
+		if b.isConst {
+			tail = litStr(map[bool]string{true: "true", false: "false"}[b.v == 1])
+		} else {
+			tail = StrV{segs: []Seg{{op: "boolstr", args: []Value{b}}}}
+		}
+		appendTo(ex, st, args[0], tail, res)
+		return true
+	})
+	reg("strconv.AppendFloat", func(ex *Exec, st *State, fv FuncV, args []Value, res ssa.Value, at ssa.Instruction) bool {
+		f := args[1].(FloatV)
+		appendTo(ex, st, args[0], StrV{segs: []Seg{{op: "float", args: []Value{f, args[2], args[3], args[4]}}}}, res)
+		return true
+	})
+
 	// ---- strconv / hex / net formatting as opaque rope segments -----------------
 	reg("strconv.FormatInt", func(ex *Exec, st *State, fv FuncV, args []Value, res ssa.Value, at ssa.Instruction) bool {
 		setRes(st, res, decSeg(args[0].(*Term), true, args[1].(*Term)))
@@ -491,6 +550,31 @@ func init() {
 			return true
 		}
 		setRes(st, res, StrV{segs: []Seg{{op: "boolstr", args: []Value{b}}}})
+		return true
+	})
+	// hex.Encode(dst, src): dst[0:2n] becomes the hex text of src (n = len(src), any length);
+	// a dst shorter than 2n panics (the real loop stores pairwise and fails at the first missing slot)
+	reg("encoding/hex.Encode", func(ex *Exec, st *State, fv FuncV, args []Value, res ssa.Value, at ssa.Instruction) bool {
+		d, okd := args[0].(SliceV)
+		sv, oks := args[1].(SliceV)
+		if !okd || !oks {
+			fail("hex.Encode on %T / %T", args[0], args[1])
+		}
+		n2 := bvBin("bvshl", sv.len, u64(1))
+		if !ex.check(st, bvCmp("bvult", d.len, n2), "panic", "index out of range (hex.Encode into a short destination)", at) {
+			ex.endPath(st, "panic")
+			return false
+		}
+		if sv.obj != 0 && d.obj != 0 {
+			src := st.container(sv).(BytesV)
+			dobj := st.heap[d.obj]
+			cont := getPath(dobj.val, d.path).(BytesV)
+			na := cont.a.hexFrom(d.off, src.a, sv.off, sv.len)
+			ex.emitObj(st, sv.obj, false)
+			ex.emitObj(st, d.obj, true)
+			st.heap[d.obj] = &Obj{typ: dobj.typ, val: setPath(dobj.val, d.path, BytesV{a: na, n: cont.n, w: cont.w})}
+		}
+		setRes(st, res, n2)
 		return true
 	})
 	reg("encoding/hex.EncodeToString", func(ex *Exec, st *State, fv FuncV, args []Value, res ssa.Value, at ssa.Instruction) bool {
